@@ -133,6 +133,9 @@ class ExprMixin:
         raise Unsupported(f"truthiness of {v.ty}")
 
     def length(self, v, p):
+        if isinstance(v.ty, T.Opt):
+            self._raise_if(p, v.is_none, "TypeError", "len(None)")
+            return self.length(v.val, p)
         if v.ty == T.TUP:
             return TH.tlen(v.t)
         if isinstance(v.ty, T.Bag):
